@@ -3,7 +3,7 @@
 // Op line:  wreg <order-seed> <step,step,...>      tbtc walletRegistry (pkg/tbtc/registry.go)
 //           greg <order-seed> <step,step,...>      beacon group registry (pkg/beacon/registry)
 //
-//	R<w><i><s>[f]  register signer/membership: wallet/group w (1-4; wallet 4 is -P of wallet 1), member index i (1-4), key
+//	R<w><i><s>[f]  register signer/membership: wallet/group w (1-4; wallet 4 is -P of wallet 1), member index i (1-4, or 9 = member index 255), key
 //	               material s (0-4 = fixture share); storage fault f on the Save:
 //	               b fails before writing, a fails after writing (torn), B process dies before
 //	               writing, A process dies after writing (then restart); i (wreg) the wallet-ID
@@ -222,10 +222,20 @@ func loadFixtures() {
 		fixShares = append(fixShares, pks)
 		fixBytes = append(fixBytes, b)
 	}
-	for w := 1; w <= 3; w++ {
-		x, y := tecdsa.Curve.ScalarBaseMult(big.NewInt(int64(w + 10)).Bytes())
-		walletPubs[w] = &ecdsa.PublicKey{Curve: tecdsa.Curve, X: x, Y: y}
+	// wallet 1: 11·G; wallet 2: the first k·G (k > 20) whose Y has a leading zero byte; wallet 3:
+	// the first k·G whose X has a leading zero byte (encodings that drop leading zeros lose them)
+	pick := func(ok func(x, y *big.Int) bool) *ecdsa.PublicKey {
+		for k := int64(21); ; k++ {
+			x, y := tecdsa.Curve.ScalarBaseMult(big.NewInt(k).Bytes())
+			if ok(x, y) {
+				return &ecdsa.PublicKey{Curve: tecdsa.Curve, X: x, Y: y}
+			}
+		}
 	}
+	x1, y1 := tecdsa.Curve.ScalarBaseMult(big.NewInt(11).Bytes())
+	walletPubs[1] = &ecdsa.PublicKey{Curve: tecdsa.Curve, X: x1, Y: y1}
+	walletPubs[2] = pick(func(x, y *big.Int) bool { return len(y.Bytes()) < 32 && len(x.Bytes()) == 32 })
+	walletPubs[3] = pick(func(x, y *big.Int) bool { return len(x.Bytes()) < 32 })
 	negY := new(big.Int).Sub(tecdsa.Curve.Params().P, walletPubs[1].Y)
 	walletPubs[4] = &ecdsa.PublicKey{Curve: tecdsa.Curve, X: new(big.Int).Set(walletPubs[1].X), Y: negY}
 }
@@ -259,6 +269,21 @@ func (r *wrig) restart() error {
 	}
 	r.reg = reg
 	return nil
+}
+
+// member index digit 9 of the op line stands for the largest member index, 255
+func memberIndex(i int) group.MemberIndex {
+	if i == 9 {
+		return group.MemberIndex(group.MaxMemberIndex)
+	}
+	return group.MemberIndex(i)
+}
+
+func indexDigit(m int) int {
+	if m == group.MaxMemberIndex {
+		return 9
+	}
+	return m
 }
 
 func pubEq(a, b *ecdsa.PublicKey) bool {
@@ -295,7 +320,7 @@ func (r *wrig) snapshot() (out string) {
 					}
 				}
 			}
-			ss = append(ss, fmt.Sprintf("%d.%d", s.MemberIndex, sid))
+			ss = append(ss, fmt.Sprintf("%d.%d", indexDigit(int(s.MemberIndex)), sid))
 		}
 		sort.Strings(ss)
 		if len(ss) > 0 {
@@ -386,7 +411,7 @@ func (r *wrig) seqStep(st string) (string, string, bool) {
 			r.h.saveFault = fault
 		}
 		err, crashed := crashable(func() error {
-			return r.reg.RegisterSigner(walletPubs[w], operators, group.MemberIndex(i), fixShares[s])
+			return r.reg.RegisterSigner(walletPubs[w], operators, memberIndex(i), fixShares[s])
 		})
 		r.idFail = false
 		r.h.saveFault = ""
@@ -538,7 +563,11 @@ func genSteps(r *hx.Rng, family string) string {
 				}
 				f = hx.Pick(r, fs)
 			}
-			steps = append(steps, fmt.Sprintf("R%d%d%d%s", w, r.Range(1, 4), r.Range(0, 4), f))
+			idx := r.Range(1, 4)
+			if r.Chance(1, 6) {
+				idx = 9 // = member index 255
+			}
+			steps = append(steps, fmt.Sprintf("R%d%d%d%s", w, idx, r.Range(0, 4), f))
 		case 6, 7, 8:
 			f := ""
 			if r.Chance(1, 3) {
